@@ -189,6 +189,27 @@ func init() {
 			fv.used("lo.UniqBy(s, key): a new slice of elements of s in which every key of s occurs (key = the contract of the key function)")
 			return true
 		},
+		"sort.Strings": func(fv *FV, st *State, ins ssa.CallInstruction, v ssa.Value, callee *ssa.Function, args []string) bool {
+			cc := ins.Common()
+			sl, ok := cc.Args[0].Type().Underlying().(*types.Slice)
+			if !ok {
+				return false
+			}
+			f := fv.elemFam(sl.Elem())
+			in := args[0]
+			old := fv.famSym(st, f)
+			_, names := famParams(f)
+			// the cells of the slice are rewritten; every new element is one of the old ones
+			fv.frameCheck(st, f, []string{sx("s-base", in), "0"}, "sort.Strings")
+			fv.havocFamily(st, f, and(eq(names[0], sx("s-base", in)), sx("<=", sx("s-off", in), names[1]), sx("<", names[1], sx("+", sx("s-off", in), sx("s-len", in)))))
+			qi, qj := fv.fresh("q!i"), fv.fresh("q!m")
+			inR := func(i string) string { return and(sx("<=", "0", i), sx("<", i, sx("s-len", in))) }
+			newAt := func(i string) string { return fv.read(st, f, sx("s-base", in), sx("+", sx("s-off", in), i)) }
+			oldAt := func(i string) string { return sx(old, sx("s-base", in), sx("+", sx("s-off", in), i)) }
+			fv.assume(st, fmt.Sprintf("(forall ((%s Int)) (! %s :pattern ((no-trigger %s))))", qi, implies(inR(qi), fmt.Sprintf("(exists ((%s Int)) %s)", qj, and(inR(qj), eq(newAt(qi), oldAt(qj))))), qi))
+			fv.used("sort.Strings(s): the elements of s are rearranged in place (every new element is an old one)")
+			return true
+		},
 		"errors.New":              modelNewError,
 		"fmt.Errorf":              modelNewError,
 		"fmt.Sprintf":             modelSprintf,
